@@ -6,21 +6,28 @@ fn main() {
     let path = "/repo/src/ops.rs";
     println!("cargo:rerun-if-changed={}", path);
     let src = std::fs::read_to_string(path).expect("read ops.rs");
+    // the macros the harness instantiates; they must exist. Every OTHER top-level `macro_rules!` of the file is lifted too,
+    // in source order, so that a refactoring which moves part of a body into a helper macro still translates.
     let wanted = ["impl_clamp_float", "impl_clamp_integer", "lerp_impl_float", "lerp_impl_integer", "wrap_impl_float", "wrap_impl_uint", "wrap_impl_sint"];
+    for name in wanted.iter() { if !src.contains(&format!("macro_rules! {} {{", name)) { panic!("symx build: macro {} not found in ops.rs", name); } }
     let mut out = String::new();
-    for name in wanted.iter() {
-        let key = format!("macro_rules! {} {{", name);
-        let start = src.find(&key).unwrap_or_else(|| panic!("symx build: macro {} not found in ops.rs", name));
-        // brace matching from the first '{'
-        let bytes = src.as_bytes();
-        let mut i = start + key.len() - 1; let mut depth = 0i32; let mut end = 0usize;
+    let bytes = src.as_bytes();
+    let mut pos = 0usize;
+    while let Some(off) = src[pos..].find("macro_rules! ") {
+        let start = pos + off;
+        // top-level definitions only (column 0); nested helper macros of test modules are skipped
+        let at_line_start = start == 0 || bytes[start - 1] == b'\n';
+        let brace = match src[start..].find('{') { Some(b) => start + b, None => break };
+        if !at_line_start { pos = brace; continue; }
+        let mut i = brace; let mut depth = 0i32; let mut end = 0usize;
         while i < bytes.len() {
             match bytes[i] { b'{' => depth += 1, b'}' => { depth -= 1; if depth == 0 { end = i + 1; break; } } _ => {} }
             i += 1;
         }
-        assert!(end > 0, "unbalanced braces in macro {}", name);
+        assert!(end > 0, "unbalanced braces in a macro of ops.rs");
         out.push_str(&src[start..end]);
         out.push_str("\n");
+        pos = end;
     }
     let dir = std::env::var("OUT_DIR").unwrap();
     let mut f = std::fs::File::create(format!("{}/ops_macros.rs", dir)).unwrap();
